@@ -35,11 +35,23 @@ class User:
         self.name, self.password, self.key, self.family = name, password, key, family
 
 
-async def open_repo(root, user, backend=None):
-    r = Repository(backend or Local(root / 'repo'), concurrent=2, quiet=True, cache_directory=None)
+CACHE_MODE = 'none'      # per history: 'none' | 'per_user' | 'shared' (one directory for all users, as the CLI default does)
+
+
+def cache_dir(root, user):
+    if CACHE_MODE == 'none':
+        return None
+    return root / ('cache_shared' if CACHE_MODE == 'shared' else f'cache_{user.name}')
+
+
+async def open_repo(root, user, backend=None, cache=True):
+    r = Repository(backend or Local(root / 'repo'), concurrent=2, quiet=True, cache_directory=cache_dir(root, user) if cache else None)
     with lib.quiet():
         await r.unlock(password=user.password, key=r.serialize(user.key) if user.key is not None else None)
     return r
+
+
+_plain_open = open_repo
 
 
 async def setup_users(root, encrypted):
@@ -61,7 +73,7 @@ async def setup_users(root, encrypted):
 
 async def loaded(root, user):
     """what this user sees: name -> (readable, chunk digests)"""
-    r = await open_repo(root, user)
+    r = await _plain_open(root, user, cache=False)
     out = {}
     with lib.quiet():
         async for path, body in r._load_snapshots():
@@ -277,13 +289,16 @@ def main():
     payload = lib.read_payload()
     tier, seed, prop = payload.get('tier', 'quick'), int(payload.get('seed', 0)), payload.get('prop', 'C02')
     failures, samples, cases = [], [], 0
-    n_hist = 10 if tier == 'thorough' else 2
+    n_hist = 40 if tier == 'thorough' else 2
     for encrypted in (True, False):
         for h in range(n_hist):
             rnd = random.Random(seed * 1000 + h + (500 if encrypted else 0))
             with lib.scratch('vf_hist_') as root:
                 cases += 1
-                case = {'encrypted': encrypted, 'history': h, 'seed': seed, 'ops': 10, 'prop': prop, 'long_lived_objects': h % 2 == 1}
+                global CACHE_MODE
+                CACHE_MODE = ('per_user', 'shared', 'none')[h % 3]
+                case = {'encrypted': encrypted, 'history': h, 'seed': seed, 'ops': 10, 'prop': prop, 'long_lived_objects': h % 2 == 1,
+                        'snapshot_cache': CACHE_MODE}
                 try:
                     probs = asyncio.run(history(root, rnd, encrypted, prop, 10, long_lived=(h % 2 == 1)))
                 except Exception as e:
